@@ -428,6 +428,17 @@ Section MetaP.
     intros k Hk. rewrite apply_meta_blocked by exact Hk. reflexivity.
   Qed.
 
+  (* the three flags the dispatcher tests are booleans: Python's bool() of whatever JSON value was sent *)
+  Theorem load_event_flags : forall data e id, load_event excl data = Some (e, id) ->
+    exists o s f n, data = JObj o /\ get k_success o = Some s /\ get k_failure o = Some f /\
+                    get k_notify o = Some n /\
+                    esuccess e = truthy s /\ efailure e = truthy f /\ enotify e = truthy n.
+  Proof.
+    intros data e id H. unfold load_event in H. crack H.
+    inversion H; subst; clear H. cbn [esuccess efailure enotify].
+    eexists _, _, _, _. repeat split; eassumption || reflexivity.
+  Qed.
+
   Theorem load_event_dispatch_safe : forall data e id, load_event excl data = Some (e, id) ->
     mem_str k_cause excl = true -> dispatch_safe e = true.
   Proof.
